@@ -275,17 +275,36 @@ class Replacer:
     """
 
     def __init__(self, base):
+        self.href = base
         self.base = self.extract_base(base)
 
     def __call__(self, uri):
         scheme, location, path, query, fragment = urllib.parse.urlsplit(uri)
-        if scheme or location or path.startswith('/'):
+        if scheme or location:
             # keep anything absolute
             return uri
 
+        if urllib.parse.urlsplit(self.href)[:2] != ('', ''):
+            # the sheet comes from elsewhere, so do its relative URLs
+            return urllib.parse.urljoin(self.href, uri)
+
+        if path.startswith('/'):
+            # keep anything absolute
+            return uri
+
+        if not path:
+            # only query or fragment: refers to the sheet itself
+            path = os.path.basename(urllib.parse.urlsplit(self.href).path)
         path, filename = os.path.split(path)
         combined = os.path.normpath(os.path.join(self.base, path, filename))
-        return urllib.request.pathname2url(combined)
+        # keep query and fragment
+        return urllib.parse.urlunsplit((
+            '',
+            '',
+            urllib.request.pathname2url(combined),
+            query,
+            fragment,
+        ))
 
     @staticmethod
     def extract_base(uri):
